@@ -173,6 +173,14 @@ def reps_for(spec, tier):
     else:
         out.append(("relabel", Relabel({i: ID_POOL[3] - 7 * k for k, i in enumerate(ids)})))
         out.append(("relabel", Relabel({i: -i - 1 for i in ids})))
+    # small ids around zero, all below the number of vertices, some negative: k and n + k both occur (an index-like lookup would confuse them)
+    tgt = [-1] + list(range(0, n - 2)) + [n - 1] if n >= 2 else [0]
+    out.append(("relabel", Relabel(dict(zip(ids, tgt)))))
+    out.append(("relabel", Relabel(dict(zip(ids, tgt[::-1])))))
+    if n >= 5:
+        tgt2 = ([n - 3, -(n - 3), 1, -1] + [n - 1, 0] + list(range(n + 5, n + 5 + max(0, n - 6))))[:n]
+        if len(set(tgt2)) == n:
+            out.append(("relabel", Relabel(dict(zip(ids, tgt2)))))
     asl = angle_slots(spec)
     if asl:
         for k in (1, -1, 2, -2, 3, -5):
